@@ -17,7 +17,7 @@
    P layer (the statement of C16): an explicit stack of open contexts.  Join/Yield land in the innermost open
    context, LiftF/WrapF open a new context there (LiftF's transformer is its first child), Unit closes the
    innermost open non-root context.  The expected visit is the bracketed pre/post-order walk of that tree; a
-   callback failing at position k cuts the walk after k callbacks and the error is returned.
+   callback failing at position k cuts the walk after k callbacks and the error is returned (VisitOk).
 
    Node ids name the step that created the node: root = 0, step s -> 2*s, the transformer of a LiftF step -> 2*s+1. *)
 EXTENDS Integers, Sequences, FiniteSets, TLC
@@ -137,27 +137,28 @@ OneRoot(tr) == tr = <<>> \/
   /\ \A i \in 2..Len(tr) : tr[i].cb = "enter" => Brackets(SubSeq(tr, 1, i - 1), <<>>)[2] # <<>>
 IsPrefix(a, b) == Len(a) <= Len(b) /\ a = SubSeq(b, 1, Len(a))
 
-\* I: Apply as coded, one frame per active call of Apply; v.k = 0: the visitor never fails, else it fails at its k-th callback
+\* I: Apply as coded, one frame per active call of Apply.  A step is one callback (which the visitor lets succeed or
+\* fail: `fail`) or one descent into the next child.
 Frame(n, d) == [n |-> n, i |-> 0, d |-> d]
-VIdle == [st |-> "idle", stk |-> <<>>, tr |-> <<>>, k |-> 0, err |-> FALSE]
-VStart(ast, k) == [st |-> "run", stk |-> <<Frame(ast, 0)>>, tr |-> <<>>, k |-> k, err |-> FALSE]
-VCall(v, cb, f, stk2) ==
+VIdle == [st |-> "idle", stk |-> <<>>, tr |-> <<>>, err |-> FALSE]
+VStart(ast) == [st |-> "run", stk |-> <<Frame(ast, 0)>>, tr |-> <<>>, err |-> FALSE]
+VCall(v, cb, f, stk2, fail) ==
   LET tr2 == Append(v.tr, Ev(cb, f.n, f.d)) IN
-  IF Len(tr2) = v.k
+  IF fail
   THEN [v EXCEPT !.tr = tr2, !.st = "done", !.err = TRUE, !.stk = <<>>]     \* `return err` in every active frame
   ELSE [v EXCEPT !.tr = tr2, !.stk = stk2, !.st = IF stk2 = <<>> THEN "done" ELSE "run"]
-VStep(v) == LET L == Len(v.stk)  f == v.stk[L] IN
-  IF f.i = 0 THEN VCall(v, "enter", f, [v.stk EXCEPT ![L].i = 1])
+AtCallback(v) == LET f == v.stk[Len(v.stk)] IN f.i = 0 \/ f.i > Len(f.n.ch)
+VStep(v, fail) == LET L == Len(v.stk)  f == v.stk[L] IN
+  IF f.i = 0 THEN VCall(v, "enter", f, [v.stk EXCEPT ![L].i = 1], fail)
   ELSE IF f.i <= Len(f.n.ch)
        THEN [v EXCEPT !.stk = Append([v.stk EXCEPT ![L].i = f.i + 1], Frame(f.n.ch[f.i], f.d + 1))]
-       ELSE VCall(v, "leave", f, SubSeq(v.stk, 1, L - 1))
+       ELSE VCall(v, "leave", f, SubSeq(v.stk, 1, L - 1), fail)
 
 \* P: what the statement promises about a visit of tree `want` in visit state v
 VisitOk(v, want) == v.st = "idle" \/
   LET full == PVisit(want, 0)  br == Brackets(v.tr, <<>>) IN
-  /\ br[1] /\ OneRoot(v.tr) /\ IsPrefix(v.tr, full)
-  /\ v.st = "run" => ~v.err /\ (v.k = 0 \/ Len(v.tr) < v.k)
-  /\ v.st = "done" => IF v.k \in 1..Len(full)
-                      THEN v.err /\ v.tr = SubSeq(full, 1, v.k)           \* cut at k, error returned
-                      ELSE ~v.err /\ v.tr = full /\ br[2] = <<>>          \* complete, every enter matched
+  /\ br[1] /\ OneRoot(v.tr) /\ IsPrefix(v.tr, full)          \* in particular: cut at the failing callback
+  /\ v.st = "run" => ~v.err /\ Len(v.tr) < Len(full)
+  /\ v.st = "done" /\ v.err => v.tr # <<>>                     \* the error is returned; nothing was called after it
+  /\ v.st = "done" /\ ~v.err => v.tr = full /\ br[2] = <<>>    \* complete, every enter matched
 ====
